@@ -240,7 +240,7 @@ static PROGRESS_WALL_MS: std::sync::atomic::AtomicU64 = std::sync::atomic::Atomi
 /// CPU seconds one case may burn before the worker gives up on it
 pub const SPIN_CPU_SECS: u64 = 90;
 /// wall-clock seconds without progress before the worker gives up (inconclusive, not a violation)
-pub const STUCK_WALL_SECS: u64 = 900;
+pub const STUCK_WALL_SECS: u64 = 300;
 
 fn process_cpu_ms() -> u64 {
     let mut ts = libc::timespec { tv_sec: 0, tv_nsec: 0 };
